@@ -2,6 +2,7 @@
 import json
 
 import stix2
+from stix2.datastore import CompositeDataSource
 from stix2.datastore import DataSourceError
 from stix2.datastore import filesystem as F
 from stix2.datastore import memory as M
@@ -146,7 +147,8 @@ def hist2_forms(i1: int, m1: int, f1: int, i2: int, m2: int, f2: int, sl: bool) 
     return ok
 
 
-FMODS = [1, 2, 3]
+FMODS = ["2020-01-01T00:00:00.001Z", "2020-01-01T00:00:00.0011Z", "2020-01-01T00:00:01Z"]      # texts whose order as strings differs from their order as instants
+FINST = [1000, 1100, 1000000]
 
 
 def family(i1: int, i2: int, i3: int) -> bool:
@@ -159,5 +161,67 @@ def family(i1: int, i2: int, i3: int) -> bool:
     for o in objs:
         fam.add(o)
     V.reached()
-    return fam.latest_version["modified"] == max(FMODS[i1], FMODS[i2], FMODS[i3]) and \
-        set(fam.all_versions.keys()) == {FMODS[i1], FMODS[i2], FMODS[i3]}
+    best = max((i1, i2, i3), key=lambda i: FINST[i])
+    return fam.latest_version["modified"] == FMODS[best] and len(fam.all_versions) == len({i1, i2, i3}) and \
+        sorted(o["modified"] for o in fam.all_versions.values()) == sorted({FMODS[i1], FMODS[i2], FMODS[i3]})
+
+
+# ---- versions that differ below the millisecond (legal in 2.1), in several spellings; registered type and dict-kept unregistered type
+SUBMS = ["2020-01-01T00:00:00.0011Z", "2020-01-01T00:00:00.0019Z", "2020-01-01T00:00:00.001Z", "2020-01-01T00:00:00.001100Z", "2020-01-01T00:00:00.002Z"]
+NSUB = len(SUBMS)
+
+
+def submillisecond_versions(i: int, a: int, b: int, c: int, f1: int, f2: int) -> bool:
+    """
+    pre: 0 <= i <= 1 and 0 <= a < NSUB and 0 <= b < NSUB and 0 <= c < NSUB and 0 <= f1 < 5 and 0 <= f2 < 5
+    pre: i * 5 + f1 == PARTNO
+    post: _
+    """
+    i, a, b, c, f1, f2 = pick(i, 2), pick(a, NSUB), pick(b, NSUB), pick(c, NSUB), pick(f1, 5), pick(f2, 5)
+    with Native():
+        ok = run_subms(i, [a, b, c], [f1, f2, (f1 + f2) % 5])
+    V.reached()
+    return ok
+
+
+def run_subms(i, mods, forms):
+    idx = (0, 2)[i]
+    inst = lambda t: stix2.utils.parse_into_datetime(t if isinstance(t, str) else stix2.utils.format_datetime(t))   # noqa: E731
+    ffs = fakefs.FakeFS()
+    saved = fakefs.install(F, ffs)
+    try:
+        fstore = F.FileSystemStore("/fs", allow_custom=True)
+        mstore = M.MemoryStore(allow_custom=True)
+        seen = []
+        for m, form in zip(mods, forms):
+            d = dict(ver(idx, 0), modified=SUBMS[m], name="n%d" % m)
+            dup = inst(SUBMS[m]) in seen
+            try:
+                fstore.add(form_of(d, form))
+            except DataSourceError:
+                if not dup:
+                    return False          # a different version was refused
+            mstore.add(form_of(d, form if form != 4 else 1))
+            if not dup:
+                seen.append(inst(SUBMS[m]))
+        for s in (fstore, mstore):
+            allv = s.all_versions(IDS[idx])
+            if sorted(inst(o["modified"]) for o in allv) != sorted(seen):
+                return False
+            g = s.get(IDS[idx])
+            if g is None or inst(g["modified"]) != max(seen):
+                return False
+            q = s.query([Filter("id", "=", IDS[idx]), Filter("modified", ">", "2020-01-01T00:00:00.0011Z")])
+            if sorted(inst(o["modified"]) for o in q) != sorted(x for x in seen if x > inst("2020-01-01T00:00:00.0011Z")):
+                return False
+        # a composite over one source per version picks the greatest instant too, whatever the member order
+        singles = [M.MemorySource([dict(ver(idx, 0), modified=SUBMS[m], name="n%d" % m)], allow_custom=True) for m in mods]
+        for order in (singles, singles[::-1]):
+            comp = CompositeDataSource()
+            comp.add_data_sources(order)
+            g = comp.get(IDS[idx])
+            if g is None or inst(g["modified"]) != max(seen):
+                return False
+        return True
+    finally:
+        F.os, F.io = saved
